@@ -258,8 +258,11 @@ def run(ck):
                    "trace semantics Runs/gstep of Model/Lock.lean as the meaning of `with lock` and of exceptions"]
 
     # ------------------------------------------------------------ T-tie: regenerate, build, audit
-    gen = os.path.join(common.LEAN, "NfcVerif", "Gen", "ClfLock.lean")
-    defs, tr, facts, leaks = translate_lock.emit(common.REPO, gen)
+    # the shared Gen/ClfLock.lean is rewritten by common.regen_all() under the lake lock before the build;
+    # this run of the translator only collects its report (facts, untranslated constructs)
+    import tempfile
+    with tempfile.TemporaryDirectory(prefix="lock-") as _tmp:
+        defs, tr, facts, leaks = translate_lock.emit(common.REPO, os.path.join(_tmp, "ClfLock.lean"))
     ck.count("translated methods", len(defs))
     ck.count("translated driver call sites", len({(s[1], s[2]) for s in tr.sites}))
     ck.notes.append("translator: %d methods, %d distinct driver call sites, %d untranslatable constructs, facts %s"
